@@ -58,7 +58,8 @@ func c19Text(class string, messy bool) (string, bool) {
 
 func c19Cases(tier string) []c19Case {
 	var out []c19Case
-	actions := [][]string{{}, {"t"}, {"u"}, {"--show"}, {"--vars"}, {"--fmt"}, {"--init"}, {"--force", "t"}, {"--quiet", "t"}, {"--json", "t"}, {"--debug", "t"}, {"t", "u", "--json"}, {"nosuchtask"}, {"--fmt", "--quiet"}, {"--spokfile", "spokfile", "--show"}}
+	actions := [][]string{{}, {"t"}, {"u"}, {"--show"}, {"--vars"}, {"--fmt"}, {"--init"}, {"--force", "t"}, {"--quiet", "t"}, {"--json", "t"}, {"--debug", "t"}, {"t", "u", "--json"}, {"nosuchtask"}, {"--fmt", "--quiet"}, {"--spokfile", "spokfile", "--show"},
+		{"--spokfile", "Spokfile", "--fmt"}, {"--spokfile", "Spokfile", "--show"}, {"--spokfile", "other/spokfile", "t"}}
 	for _, cl := range c19Classes {
 		for _, a := range actions {
 			for _, nested := range []bool{false, true} {
@@ -99,6 +100,12 @@ func c19Run(root string, c c19Case) (obs []c19Obs, outcome string) {
 	t.File("home/w/proj/.hidden", "h\n")
 	t.Mkdir("home/w/proj/nest/deeper")
 	t.File("home/w/proj/nest/deeper/n.txt", "n\n")
+	// a differently cased sibling of the spokfile, and a second project directory
+	messy, _ := c19Text("valid", true)
+	t.File("home/w/proj/Spokfile", messy)
+	t.File("home/w/proj/nest/deeper/Spokfile", messy)
+	t.File("home/w/proj/other/spokfile", "task t() {\n    echo other\n}\n")
+	t.File("home/w/proj/nest/deeper/other/spokfile", "task t() {\n    echo other\n}\n")
 	text, loads := c19Text(c.Class, c.Messy)
 	switch c.Class {
 	case "absent":
@@ -144,10 +151,16 @@ func c19Run(root string, c c19Case) (obs []c19Obs, outcome string) {
 	isInit := len(c.Action) > 0 && c.Action[0] == "--init"
 	isFmt := len(c.Action) > 0 && c.Action[0] == "--fmt"
 	spokDir := "home/w/proj/.spok"
+	if len(c.Action) >= 2 && c.Action[0] == "--spokfile" && strings.HasPrefix(c.Action[1], "other/") {
+		spokDir = cwdRel + "/other/.spok"
+	}
 	allowed := func(p string) bool {
 		if isInit {
 			// --init happens before any spokfile is looked for: only cwd/spokfile (new) and cwd/.gitignore
 			return false
+		}
+		if strings.HasSuffix(spokDir, "/other/.spok") {
+			return p == spokDir || strings.HasPrefix(p, spokDir+"/")
 		}
 		if c.Class == "dangling-symlink" {
 			return false
